@@ -52,7 +52,51 @@ template <class L> void runD(size_t n0, const std::vector<std::string> &ops) {
     }
 }
 
-template <template <class> class Run> struct Dispatch {};
+// ---- observation of LabeledUndirectedGraph<L>: layout of UndirectedModel.u_observe ----
+template <class L> Segs observeU(const LabeledUndirectedGraph<L> &g) {
+    Segs S(8); size_t n = g.getSize();
+    S[0].push_back(n); S[0].push_back(g.getEdgeNumber());
+    for (unsigned i = 0; i < n; i++) for (unsigned j = 0; j < n; j++) S[1].push_back(guard([&] { return (Z)g.hasEdge(i, j); }));
+    for (unsigned i = 0; i < n; i++)
+        guardVec(S[2], n, [&] { std::vector<Z> c(n, 0); for (auto j : (i % 2 ? g.getNeighbours(i) : g.getOutNeighbours(i))) if (j < n) c[j]++; return c; });
+    for (unsigned i = 0; i < n; i++) for (unsigned j = 0; j < n; j++) {
+        S[3].push_back(guard([&] { return Lab<L>::code(g.getEdgeLabel(i, j, false)); }));
+        S[3].push_back(guard([&] { g.getEdgeLabel(i, j, true); return (Z)1; }));
+    }
+    for (unsigned i = 0; i < n; i++) for (unsigned j = 0; j < n; j++) for (size_t l = 0; l < Lab<L>::alpha(); l++)
+        S[4].push_back(guard([&] { return (Z)g.hasEdge(i, j, Lab<L>::mk(l)); }));
+    for (unsigned i = 0; i < n; i++) S[5].push_back(guard([&] { return (Z)g.getDegree(i, true); }));
+    for (unsigned i = 0; i < n; i++) S[5].push_back(guard([&] { return (Z)g.getDegree(i, false); }));
+    guardVec(S[5], n, [&] { auto d = g.getDegrees(true); return std::vector<Z>(d.begin(), d.end()); });
+    guardVec(S[5], n, [&] { auto d = g.getDegrees(false); return std::vector<Z>(d.begin(), d.end()); });
+    for (int tw = 1; tw >= 0; tw--)
+        guardVec(S[6], n * n, [&] { auto m = g.getAdjacencyMatrix((bool)tw); std::vector<Z> v; for (auto &r : m) for (auto x : r) v.push_back(x); return v; });
+    guardVec(S[7], n * n + 1, [&] {
+        std::vector<Z> c(n * n + 1, 0);
+        for (auto e : g.edges()) { c[0]++; if (e.first < n && e.second < n) c[1 + e.first * n + e.second]++; }
+        return c; });
+    return S;
+}
+
+template <class L> void runU(size_t n0, const std::vector<std::string> &ops) {
+    LabeledUndirectedGraph<L> g(n0);
+    for (auto &op : ops) {
+        std::istringstream is(op); std::string k; is >> k; long i = 0, j = 0, l = 0, f = 0;
+        Z r = guard([&]() -> Z {
+            if (k == "A") { is >> i >> j >> l >> f; g.addEdge(i, j, Lab<L>::mk(l), (bool)f); }
+            else if (k == "R") { is >> i >> j; g.removeEdge(i, j); }
+            else if (k == "SL") g.removeSelfLoops();
+            else if (k == "V") { is >> i; g.removeVertexFromEdgeList(i); }
+            else if (k == "CL") g.clearEdges();
+            else if (k == "RZ") { is >> i; g.resize(i); }
+            else if (k == "SLB") { is >> i >> j >> l >> f; g.setEdgeLabel(i, j, Lab<L>::mk(l), (bool)f); }
+            else if (k == "DD") g.removeDuplicateEdges();
+            else throw std::logic_error("unknown op " + k);
+            return 0; });
+        Segs o = observeU(g); o.insert(o.begin(), Obs{r}); emit("I", o);
+    }
+}
+
 #define DISPATCH(fn, lk, ...)                                                                                         \
     do {                                                                                                              \
         if (lk == "none") fn<NoLabel>(__VA_ARGS__); else if (lk == "int") fn<int>(__VA_ARGS__);                       \
@@ -72,6 +116,7 @@ int main() {
         fputs(("CASE " + line + "\n").c_str(), stdout); fflush(stdout);
         auto ops = splitOps(line.substr(c + 1));
         if (cls == "D") DISPATCH(runD, lk, n, ops);
+        else if (cls == "U") DISPATCH(runU, lk, n, ops);
         else { fputs("I unknown-class\n", stdout); }
     }
     return 0;
